@@ -196,6 +196,9 @@ func (n *orderedPodNsLister) Get(name string) (*v1.Pod, error) {
 	return nil, apierrors.NewNotFound(schema.GroupResource{Resource: "pods"}, name)
 }
 
+// syCrash is the sentinel the reactor panics with to model the controller process dying at an API call.
+type syCrash struct{ at string }
+
 type syWorld struct {
 	mu      sync.Mutex
 	log     []string
@@ -295,6 +298,9 @@ func (w *syWorld) react(a k8stesting.Action) (bool, runtime.Object, error) {
 	}
 	w.mu.Unlock()
 	if bad {
+		if kind == "crash" {
+			panic(syCrash{key}) // the process dies right before this call reaches the API
+		}
 		return true, nil, errOfKind(kind, a, key)
 	}
 	if w.graceful && a.GetVerb() == "delete" && a.GetResource().Resource == "pods" {
